@@ -8,6 +8,7 @@ the lists; every fetching / enumerating / classifying API is compared with the s
 The Classify cube is replayed into LocationParser.attribute_has_location / parse_from_attribute.
 Python only concretises bytes, calls the public API, normalises the returned tuples and compares."""
 import io
+import signal
 
 from . import core
 
@@ -141,16 +142,35 @@ def _mk(case):
     return DWARFInfo(config=DwarfConfig(little_endian=case['le'], machine_arch='x64', default_address_size=case['asz']), **kw)
 
 
+LIMIT = 5000
+
+
+def _bounded(it):
+    """A broken enumerator may never stop: cut it off (the cut is an observation, not a hang of the harness)."""
+    for i, x in enumerate(it):
+        if i >= LIMIT:
+            raise OverflowError('enumeration yields more than %d items' % LIMIT)
+        yield x
+
+
+class _Timeout(Exception):
+    pass
+
+
+def _alarm(signum, frame):
+    raise _Timeout('no result within the per-case time limit')
+
+
 def _consume(factory, norm):
     """One iterator-returning API, several plain consumption patterns (never interleaved with other calls on
     the same stream): flat list(), explicit next() loop, partial-then-abandoned followed by a fresh full pass."""
     outs = []
 
     def flat():
-        return [norm(x) for x in factory()]
+        return [norm(x) for x in _bounded(factory())]
 
     def stepwise():
-        it = iter(factory())
+        it = iter(_bounded(factory()))
         got = []
         while True:
             try:
@@ -160,10 +180,10 @@ def _consume(factory, norm):
             got.append(norm(x))
 
     def abandoned():
-        it = iter(factory())
+        it = iter(_bounded(factory()))
         next(it, None)
         del it
-        return [norm(x) for x in factory()]
+        return [norm(x) for x in _bounded(factory())]
     for name, f in (('list', flat), ('next', stepwise), ('abandon+list', abandoned)):
         outs.append((name, _call(f)))
     return outs
@@ -258,9 +278,9 @@ def _one(case, bad):
         obj = di2.location_lists() if which == 'loc' else di2.range_lists()
         if lv == 5:
             # unit blocks of the section
-            wantb = [{'cu_offset': b['off'], 'unit_length': b['ul'], 'is64': b['is64'], 'version': 5, 'address_size': case['asz'],
-                      'segment_selector_size': 0, 'offset_count': b['oc'], 'offset_table_offset': b['toff'],
-                      'offset_after_length': b['off'] + (12 if b['is64'] else 4), 'offsets': list(b['rel'])} for b in sv['blocks']]
+            wantb = [{'cu_offset': b['off'], 'unit_length': b['ul'], 'is64': b['is64'], 'version': b['ver'], 'address_size': b['asz'],
+                      'segment_selector_size': b['seg'], 'offset_count': b['oc'], 'offset_table_offset': b['toff'],
+                      'offset_after_length': b['oal'], 'offsets': list(b['rel'])} for b in sv['blocks']]
 
             def normh(h):
                 d = {k: h[k] for k in ('cu_offset', 'unit_length', 'is64', 'version', 'address_size', 'segment_selector_size',
@@ -274,14 +294,14 @@ def _one(case, bad):
                     bad('%s.iter_CUs' % g, fmts, wantb, obs, pattern=pat)
                     break
             if which == 'rng':
-                hdrs = _call(lambda: list(obj.iter_CUs()))
+                hdrs = _call(lambda: list(_bounded(obj.iter_CUs())))
                 if not _is_exc(hdrs) and len(hdrs) == len(sv['blocks']):
                     # flat: headers first, then the lists of each block
                     for h, b in zip(hdrs, sv['blocks']):
                         if not b['tiled']:
                             continue
                         wantl = [_exp_raw(which, svl[lid - 1]['raw']) for lid in b['lids']]
-                        t = 'oc>0' if b['oc'] > 0 else 'oc=0'
+                        t = 'oc-nonzero' if b['oc'] > 0 else 'oc-zero'
                         for pat, obs in _consume(lambda: obj.iter_CU_range_lists_ex(h), _obs_raw):
                             if obs != wantl:
                                 bad('rng5.iter_CU_range_lists_ex', t, wantl, obs, pattern=pat)
@@ -289,9 +309,9 @@ def _one(case, bad):
                     # nested (the documented use: "where CU comes from iter_CUs above"); inner iterator drained each time
                     if all(b['tiled'] for b in sv['blocks']):
                         wantn = [[_exp_raw(which, svl[lid - 1]['raw']) for lid in b['lids']] for b in sv['blocks']]
-                        obs = _call(lambda: [[_obs_raw(l) for l in obj.iter_CU_range_lists_ex(h)] for h in obj.iter_CUs()])
+                        obs = _call(lambda: [[_obs_raw(l) for l in _bounded(obj.iter_CU_range_lists_ex(h))] for h in _bounded(obj.iter_CUs())])
                         if obs != wantn:
-                            bad('rng5.iter_CU_range_lists_ex.nested', 'oc>0' if any(b['oc'] > 0 for b in sv['blocks']) else 'oc=0', wantn, obs)
+                            bad('rng5.iter_CU_range_lists_ex.nested', 'oc-nonzero' if any(b['oc'] > 0 for b in sv['blocks']) else 'oc-zero', wantn, obs)
         if pair:
             continue                # enumeration by debugging entries over two sections is documented as unsupported
         # lists designated by the debugging entries, each once; order is not asserted
@@ -359,6 +379,7 @@ def check(run):
         longest = max((len(l) for l in f), default=0)
     if longest >= 8192:
         raise core.MachineryError('emitted case of %d bytes: not written atomically' % longest)
+    signal.signal(signal.SIGALRM, _alarm)
     seen = set()
     for case in run.cases(res.out):
         if case['mode'] == 'classify':
@@ -380,7 +401,11 @@ def check(run):
             b = dict(brief, pattern=pattern) if pattern else brief
             run.mismatch(clause, tag, b, exp, obs)
         try:
-            _one(case, bad)
+            signal.setitimer(signal.ITIMER_REAL, 20.0, 20.0)
+            try:
+                _one(case, bad)
+            finally:
+                signal.setitimer(signal.ITIMER_REAL, 0)
         except core.MachineryError:
             raise
         except Exception as ex:
